@@ -195,3 +195,7 @@ PROPS["C14"]["rule"] = PROPS["C14"].get("rule", "") + "; twowriters (implementat
 
 # C14 for any number of mutating threads: Props/C14Multi.v (no call past its awaitRotation check runs with a rotation queued)
 PROPS["C14"]["extra_props"] = ["C14Multi"]
+
+# C13: a left-over segment file next to a foreign *.wal file (implementation only)
+PROPS["C13"]["streams"] = PROPS["C13"]["streams"] + [S("strayfile", 40, 800, vm=(0, 0), timeout=3000)]
+PROPS["C13"]["rule"] = PROPS["C13"]["rule"] + "; strayfile (implementation only): a closed directory gets an unlisted file with a segment file name and, in half of the cases, a foreign file ending in .wal; Open may refuse, but if it succeeds no unlisted segment file may remain"
